@@ -106,6 +106,10 @@ def _diagram_path() -> str:
         atexit.register(shutil.rmtree, _SCRATCH, True)
         with open(os.path.join(_SCRATCH, "d.puml"), "w") as f:
             f.write("@startuml\n[a] --> [b]\n[c]\n@enduml\n")
+        # every arrow source written by ALIAS (two aliased sources, one plain): several generated rules, whose order in
+        # the aggregated message must not depend on how the parser's alias bookkeeping is iterated
+        with open(os.path.join(_SCRATCH, "alias.puml"), "w") as f:
+            f.write("@startuml\n[a] as A1\n[b] as B1\n[c]\nA1 --> [c]\nB1 --> [c]\n[c] --> A1\n@enduml\n")
     return os.path.join(_SCRATCH, "d.puml")
 
 
@@ -119,7 +123,10 @@ def make_rule(desc):
 
     from pytestarch import DiagramRule
 
-    return DiagramRule(should_only_rule=desc[1]).from_file(Path(_diagram_path())).with_base_module("p")
+    path = _diagram_path()
+    if kind == "diagram-alias":
+        path = os.path.join(os.path.dirname(path), "alias.puml")
+    return DiagramRule(should_only_rule=desc[1]).from_file(Path(path)).with_base_module("p")
 
 
 def rule_pool(tier: str) -> list:
